@@ -44,6 +44,12 @@ from ckl.interpreter import Interpreter  # noqa: E402
 # violation too; set it to False to count those as drift.
 STRICT_STAT_VALUES = True
 
+# mean over decimals whose sum is not an exact double: before the repair "sum() and mean() of decimals do not
+# depend on the order of the list" the result depended on the order of the list in its last bit
+# (mean([0.1, 0.2, 0.3]) against mean([0.3, 0.2, 0.1])).  The statement says "invariant under permutation", so
+# that is reported (perm-variance); set this to False to count a difference within 1e-9 on such inputs as drift.
+STRICT_MEAN_ORDER = True
+
 ALPHA = {1: "a", 2: "b", 3: "c", 4: "d"}
 CODE = {v: k for k, v in ALPHA.items()}
 MODULES = ["List", "Set", "Stat", "Math", "Bitwise"]
@@ -564,9 +570,14 @@ def check_xperm(ck, r):
                 if first is None:
                     first = (src, o)
                 elif canon(o) != canon(first[1]):
-                    ck.run.violation(f"{tag}{src} vs {first[0]}",
-                                     f"perm-variance: {tag}{src} = {show(o)} but {first[0]} = {show(first[1])}",
-                                     {"kind": "perm", "f": f, "p": p, "q": r["perms"][0], "legacy": impl.legacy})
+                    if (not STRICT_MEAN_ORDER and want["t"] == "num" and not want["exact"]
+                            and fits(o, want)[0] and fits(first[1], want)[0]):
+                        ck.run.drift("last-bit-of-an-inexact-mean-depends-on-the-order",
+                                     {"src": tag + src, "got": show(o), "other": first[0], "other got": show(first[1])})
+                    else:
+                        ck.run.violation(f"{tag}{src} vs {first[0]}",
+                                         f"perm-variance: {tag}{src} = {show(o)} but {first[0]} = {show(first[1])}",
+                                         {"kind": "perm", "f": f, "p": p, "q": r["perms"][0], "legacy": impl.legacy})
                 ok, note = fits(o, want)
                 if not ok:
                     if STRICT_STAT_VALUES or o[0] == "host":
